@@ -57,6 +57,7 @@ def strategy_impl(draw, tier):
         "data_pos": data_pos,
         "dims": order,
         "values": values,
+        "reverse_mappings": draw(st.booleans()),
     }
 
 
@@ -144,12 +145,14 @@ def check(case, ctx):
     da = build.data_array(case["values"], dims)
     bw = {n: tuple(w) for n, w in case["widths"].items()}
 
+    rev = bool(case.get("reverse_mappings"))
+
     def do_pad(boundary, fill):
         kw = {}
         if boundary is not None:
-            kw["boundary"] = build.copy_arg(boundary)
+            kw["boundary"] = build.copy_arg(boundary, rev)
         if fill is not None:
-            kw["fill_value"] = build.copy_arg(fill)
+            kw["fill_value"] = build.copy_arg(fill, rev)
         return pad(da, grid, boundary_width=dict(bw), **kw)
 
     got = must_return("pad", do_pad, case["call_boundary"], case["call_fill"])
